@@ -481,6 +481,53 @@ def updateMetadataAxes (env : Env) (o : MetaObj) (names : List String)
   let axes ← axesFromLists env (some names) units types scales scaledUnits offset none none
   assignAxes (copy o) axes
 
+/-- what `compute_and_add_axis_min_max` sees of one node-property column (the harness reduces the value
+column; the models never compute on floats): the column has no entries (`len(values) == 0`); every entry
+is flagged missing (numpy's reduction over the empty selection raises `ValueError`); or `lo` / `hi` are
+`np.min` / `np.max` of the entries **not** flagged missing.  A column the dict does not hold at all is
+simply not listed. -/
+inductive MinMaxCol where
+  | noValues
+  | allMissing
+  | bounds (lo hi : F)
+deriving DecidableEq, Repr, Inhabited
+
+/-- both numbers come from one non-empty selection, so numpy guarantees "not `lo > hi`" (NaN propagates
+to both).  This is the operation's well-formedness precondition, supplied and checked by the harness. -/
+def MinMaxCol.WF : MinMaxCol → Prop
+  | .bounds lo hi => (!F.gt lo hi) = true
+  | _ => True
+
+instance (c : MinMaxCol) : Decidable c.WF := by cases c <;> unfold MinMaxCol.WF <;> infer_instance
+
+/-- the loop of `compute_and_add_axis_min_max`: an axis whose column is absent → `ValueError`; an empty
+column → the axis as it is; otherwise a *copy* of the axis carrying min/max (assigned without validation:
+`Axis` does not validate on assignment) -/
+def minMaxLoop (cols : List (String × MinMaxCol)) : List Axis → Except Err (List Axis)
+  | [] => .ok []
+  | a :: rest =>
+    match lookup cols a.name with
+    | none => .error .value
+    | some .allMissing => .error .value
+    | some .noValues =>
+      match minMaxLoop cols rest with
+      | .error e => .error e
+      | .ok tl => .ok (a :: tl)
+    | some (.bounds lo hi) =>
+      match minMaxLoop cols rest with
+      | .error e => .error e
+      | .ok tl => .ok ({ a with min := some lo, max := some hi } :: tl)
+
+/-- `compute_and_add_axis_min_max(metadata, node_props)`: returns a new object; the argument is never
+modified (the axes are copied before they are edited) -/
+def computeAndAddAxisMinMax (o : MetaObj) (cols : List (String × MinMaxCol)) : Except Err MetaObj :=
+  match o.val.axes with
+  | none => .ok (copy o)
+  | some l =>
+    match minMaxLoop cols l with
+    | .error e => .error e
+    | .ok l' => assignAxes (copy o) l'
+
 def unwrapAssign (r : Option Err × MetaObj) : Except Err MetaObj :=
   match r.1 with
   | some e => .error e
